@@ -3,7 +3,9 @@ import Model.RespSpec
 import Model.Rows
 import Model.RowDataSpec
 import Model.Compress
+import Model.RowsReuse
 import Driver.Util
+import Driver.C12
 namespace Driver.C04
 open Util FrameRead RespSpec
 
@@ -18,7 +20,13 @@ open Util FrameRead RespSpec
   rows  <api> <dests> <fv> <logical response> <wire>   model of the consumer API + the specification's
         expectation of the cells (must agree)
   skip / skipx  <fv> <PREPARED response> <wire1> ROWSRESP <ROWS response> <wire2>   executeQuery's iterator
-        with skip-metadata; skip: + the specification's expectation -/
+        with skip-metadata; skip: + the specification's expectation
+  reuse <api> <init> <fv> D <n> <go type>*n <logical response> <wire>   typed destinations (Go types in the token
+        syntax of Driver/C12.lean) created ONCE (init Z: zero values, D: RowsReuse.dirtyOf) and REUSED for every row
+        through scan | scanner | mapscan (a new map per row holding pointers to the same variables); the answer lists the destinations' values after every row. Model: Model/RowsReuse.lean;
+        specification: every cell decoded on its own into a fresh zero value (C04_rows_independent) — must agree
+  reusex ...   the same, model only (the excluded class of C04_rows_independent_partial, wrong destination counts,
+        rows that do not fit the metadata) -/
 
 /-! ## token parser for logical responses -/
 
@@ -448,6 +456,129 @@ def rowsSpec (api : String) (v : Nat) (r : LResp) : Option String :=
       | _ => none
   | _ => none
 
+
+/-! ## typed destinations reused across rows (Model/RowsReuse.lean) -/
+
+open Marshal in
+def dVals (vs : List GoVal) : String := ";".intercalate (vs.map Driver.C12.showVal)
+
+open Marshal in
+def initVals (init : String) (tys : List GoTy) : List GoVal :=
+  if init == "D" then tys.map RowsReuse.dirtyOf else tys.map zeroOf
+
+open Rows RowsReuse Marshal in
+def scanLoopT (p : Nat) (tys : List GoTy) : Nat → Iter → List GoVal → List String → Option (List String × Iter)
+  | 0, it, _, acc => some (acc, it)
+  | fuel + 1, it, vals, acc =>
+    match scanT p it tys vals with
+    | .row it' vals' => scanLoopT p tys fuel it' vals' (acc ++ [dVals vals'])
+    | .stop it' _ => some (if it'.failed then acc ++ ["!"] else acc, it')
+    | .crash => none
+    | .unmodelled => some (acc ++ ["unmodelled"], it)
+
+open Rows RowsReuse Marshal in
+def mapScanLoopT (p : Nat) (tys : List GoTy) : Nat → Iter → List GoVal → List String → Option (List String × Iter)
+  | 0, it, _, acc => some (acc, it)
+  | fuel + 1, it, vals, acc =>
+    match mapScanT p it tys vals with
+    | .row it' vals' => mapScanLoopT p tys fuel it' vals' (acc ++ [dVals vals'])
+    | .stop it' _ => some (if it'.failed then acc ++ ["!"] else acc, it')
+    | .crash => none
+    | .unmodelled => some (acc ++ ["unmodelled"], it)
+
+open Rows RowsReuse Marshal in
+def scannerLoopT (p : Nat) (tys : List GoTy) : Nat → Scanner → List GoVal → List String → Option (List String × String × Scanner)
+  | 0, s, _, acc => some (acc, "done", s)
+  | fuel + 1, s, vals, acc =>
+    match s.next with
+    | .crash => none
+    | .err => none
+    | .ok (s', false) => some (acc, "done", s')
+    | .ok (s', true) =>
+      match scannerScanT p s' tys vals with
+      | .ok s'' vals' => scannerLoopT p tys fuel s'' vals' (acc ++ [dVals vals'])
+      | .error s'' _ => some (acc ++ ["!"], "scanerr", s'')
+      | .crash => none
+      | .unmodelled => some (acc ++ ["unmodelled"], "done", s')
+
+open Rows RowsReuse Marshal in
+def reuseModel (api init : String) (fv : Nat) (tys : List GoTy) (wire : FrameRead.Bytes) : String :=
+  match recvModel fv wire with
+  | none => "err"
+  | some (h, body) =>
+    match parseResp fv h body with
+    | .err => "err"
+    | .crash => "crash:go"
+    | .ok (r, rest) =>
+      match r.frame with
+      | .resultRows md n =>
+        let it := iterOf md n rest
+        let fuel := n.toNat + 1
+        let out := "ok M:" ++ dMeta md
+        let vals := initVals init tys
+        match api with
+        | "scan" =>
+          match scanLoopT fv tys fuel it vals [] with
+          | none => "crash:go"
+          | some (rows, it') => out ++ " rows:[" ++ "|".intercalate rows ++ "] " ++ iterEnd it'
+        | "mapscan" =>
+          match mapScanLoopT fv tys fuel it vals [] with
+          | none => "crash:go"
+          | some (rows, it') => out ++ " rows:[" ++ "|".intercalate rows ++ "] " ++ iterEnd it'
+        | "scanner" =>
+          match scannerLoopT fv tys (fuel + 1) it.scanner vals [] with
+          | none => "crash:go"
+          | some (rows, status, s) =>
+            out ++ " rows:[" ++ "|".intercalate rows ++ "] " ++ status ++ " err:" ++ (if s.it.failed then "1" else "0")
+        | _ => "bad-op"
+      | _ => "err"
+
+open RowsReuse Marshal in
+/-- every destination of a row decoded on its own into a fresh zero value; `none`: some Unmarshal fails -/
+def freshRow (p : Nat) (tys : List GoTy) (row : List (FrameRead.TypeInfo × Option FrameRead.Bytes)) : Option (List GoVal) :=
+  (row.zip tys).mapM (fun x => match unmarshalFresh p (cqlOf x.1.1) x.2 x.1.2 with
+    | .ok v => some v
+    | _ => none)
+
+open Marshal in
+/-- the rows up to (excluding) the first one with a cell that does not decode; did one fail? -/
+def freshRows (p : Nat) (tys : List GoTy) : List (List (FrameRead.TypeInfo × Option FrameRead.Bytes)) → List String × Bool
+  | [] => ([], false)
+  | row :: more =>
+    match freshRow p tys row with
+    | none => ([], true)
+    | some vals => let (l, f) := freshRows p tys more; (dVals vals :: l, f)
+
+open Marshal in
+/-- expected answer of a `reuse` op from the logical response alone: what each row's cells say, whatever the
+    destinations held before -/
+def reuseSpec (api : String) (v : Nat) (r : LResp) (tys : List GoTy) : Option String :=
+  match r.body with
+  | .result (.rows m rs) =>
+    match rs.mapM (expectRow (colTypes m.cols)) with
+    | none => none
+    | some rows =>
+      if rows.any (fun row => row.length != tys.length) then none else
+      let out := "ok M:" ++ dMeta (viewMeta m)
+      let (l, failed) := freshRows v tys rows
+      let shown := if failed then l ++ ["!"] else l
+      match api with
+      | "scan" | "mapscan" =>
+        some (out ++ " rows:[" ++ "|".intercalate shown ++ "] " ++
+          (if failed then s!"end:1,{l.length},x" else s!"end:0,{rs.length},-"))
+      | "scanner" =>
+        some (out ++ " rows:[" ++ "|".intercalate shown ++ "] " ++ (if failed then "scanerr err:0" else "done err:0"))
+      | _ => none
+  | _ => none
+
+/-- `D <n> <go type>*n` -/
+def parseDests (ws : List String) : Option (List Marshal.GoTy × List String) :=
+  match ws with
+  | "D" :: n :: r => (match n.toNat? with
+      | some n => Driver.C12.pMany (Driver.C12.pGoTy (r.length + 1)) n r
+      | none => none)
+  | _ => none
+
 /-! ## skip-metadata end to end: PREPARED response, then a page; conn.go executeQuery's iterator -/
 
 open Rows in
@@ -550,6 +681,28 @@ def step (_ : Unit) (ws : List String) : Unit × String :=
          match rowsSpec api v r with
          | none => "not-wf-rows"
          | some s => if s == m then m else "MODEL-SPEC-MISMATCH model=" ++ m ++ " spec=" ++ s
+     | _, _ => "bad-op")
+  | "reusex" :: api :: init :: fv :: rest =>
+    (match fv.toNat?, parseDests rest with
+     | some fv, some (tys, rest') =>
+       (match rest'.getLast?.bind parseHex with
+        | some wire => reuseModel api init fv tys wire
+        | none => "bad-op")
+     | _, _ => "bad-op")
+  | "reuse" :: api :: init :: fv :: rest =>
+    (match fv.toNat?, parseDests rest with
+     | some fv, some (tys, rest') =>
+       (match parseLogical rest' with
+        | some (v, r, wire) =>
+          if fv != v then "bad-op"
+          else if !(wf v r) then "not-wf"
+          else if encodeFrame v r != wire then "spec-encoder-mismatch " ++ toHex (encodeFrame v r)
+          else
+            let m := reuseModel api init fv tys wire
+            match reuseSpec api v r tys with
+            | none => "not-wf-rows"
+            | some s => if s == m then m else "MODEL-SPEC-MISMATCH model=" ++ m ++ " spec=" ++ s
+        | none => "bad-op")
      | _, _ => "bad-op")
   | "skipx" :: fv :: rest =>
     (match fv.toNat?, tSkip.run rest with
